@@ -227,8 +227,8 @@ def stmt(s, side):
         c = cond(s.test)
         t, e = block(s.body, side), block(s.orelse, side)
         if c is None:
-            only = all(x == 'SOpaque' or x.startswith('SHeadersAdd') or x.startswith('SHeadersNew')
-                       for x in t + e)
+            only = all(x in ('SOpaque', 'SEncodeMetadata') or x.startswith('SHeadersAdd')
+                       or x.startswith('SHeadersNew') for x in t + e)
             if not only:
                 raise Unsupported('tracked statement under an untracked condition, line %d' % s.lineno)
             if all(x == 'SOpaque' for x in t + e):
@@ -280,7 +280,7 @@ def stmt(s, side):
                 if isinstance(a, (ast.List, ast.Tuple)):
                     return ['SHeadersAdd %s' % clist(header_names(a))]
                 if isinstance(a, ast.Call) and ast.unparse(a.func) == 'encode_metadata':
-                    return ['SOpaque']              # user metadata (validated by C13's model)
+                    return ['SEncodeMetadata']      # user metadata (C13's model): may raise
                 raise Unsupported('headers.extend: ' + ast.unparse(a))
             if f == 'self._stream.reset_nowait':
                 return ['SResetNowait']
